@@ -1,0 +1,193 @@
+//go:build verif
+
+package error
+
+// Machine-checked contracts for package error (read by /verif/znvc; comment-only).
+// Every constructor returns a fresh, non-nil error object carrying the documented code.
+
+//@ func IndexOutOfRange
+//@   modifies nothing
+//@   ensures result != nil && fresh(result) && result.Code == ErrIndexOutOfRange
+
+//@ func IndexKeyNotFound
+//@   modifies nothing
+//@   ensures result != nil && fresh(result) && result.Code == ErrIndexKeyNotFound
+
+//@ func NameNotDefined
+//@   modifies nothing
+//@   ensures result != nil && fresh(result) && result.Code == ErrNameNotDefined
+
+//@ func NameRedeclared
+//@   modifies nothing
+//@   ensures result != nil && fresh(result) && result.Code == ErrNameRedeclared
+
+//@ func AssignToConstant
+//@   modifies nothing
+//@   ensures result != nil && fresh(result) && result.Code == ErrAssignToConstant
+
+//@ func PropertyNotFound
+//@   modifies nothing
+//@   ensures result != nil && fresh(result) && result.Code == ErrPropertyNotFound
+
+//@ func MethodNotFound
+//@   modifies nothing
+//@   ensures result != nil && fresh(result) && result.Code == ErrMethodNotFound
+
+//@ func ClassNotOnRoot
+//@   modifies nothing
+//@   ensures result != nil && fresh(result) && result.Code == ErrClassNotOnRoot
+
+//@ func ThisValueNotFound
+//@   modifies nothing
+//@   ensures result != nil && fresh(result) && result.Code == ErrThisValueNotFound
+
+//@ func InvalidExceptionClass
+//@   modifies nothing
+//@   ensures result != nil && fresh(result) && result.Code == ErrInvalidExceptionClass
+
+//@ func LeastParamsError
+//@   modifies nothing
+//@   ensures result != nil && fresh(result) && result.Code == ErrLeastParamsError
+
+//@ func MismatchParamLengthError
+//@   modifies nothing
+//@   ensures result != nil && fresh(result) && result.Code == ErrMismatchParamLengthError
+
+//@ func MostParamsError
+//@   modifies nothing
+//@   ensures result != nil && fresh(result) && result.Code == ErrMostParamsError
+
+//@ func ExactParamsError
+//@   modifies nothing
+//@   ensures result != nil && fresh(result) && result.Code == ErrExactParamsError
+
+//@ func ModuleNotFound
+//@   modifies nothing
+//@   ensures result != nil && fresh(result) && result.Code == ErrModuleNotFound
+
+//@ func LibraryNotFound
+//@   modifies nothing
+//@   ensures result != nil && fresh(result) && result.Code == ErrLibraryNotFound
+
+//@ func ImportSameModule
+//@   modifies nothing
+//@   ensures result != nil && fresh(result) && result.Code == ErrImportSameModule
+
+//@ func DuplicateModule
+//@   modifies nothing
+//@   ensures result != nil && fresh(result) && result.Code == ErrDuplicateModule
+
+//@ func ModuleCircularDependency
+//@   modifies nothing
+//@   ensures result != nil && fresh(result) && result.Code == ErrModuleCircularDependency
+
+//@ func UnexpectedCase
+//@   modifies nothing
+//@   ensures result != nil && fresh(result) && result.Code == ErrUnexpectedCase
+
+//@ func UnexpectedEmptyExecLogic
+//@   modifies nothing
+//@   ensures result != nil && fresh(result) && result.Code == ErrUnexpectedEmptyExecLogic
+
+//@ func UnexpectedAssign
+//@   modifies nothing
+//@   ensures result != nil && fresh(result) && result.Code == ErrUnexpectedAssign
+
+//@ func UnexpectedParamWildcard
+//@   modifies nothing
+//@   ensures result != nil && fresh(result) && result.Code == ErrUnexpectedParamWildcard
+
+//@ func InvalidExprType
+//@   modifies nothing
+//@   loop 1 invariant (labels.base == 0 || fresh(labels)) && len(labels) <= rangeindex + 1
+//@   ensures result != nil && fresh(result) && result.Code == ErrInvalidExprType
+
+//@ func InvalidFuncVariable
+//@   modifies nothing
+//@   ensures result != nil && fresh(result) && result.Code == ErrInvalidFuncVariable
+
+//@ func InvalidParamType
+//@   modifies nothing
+//@   loop 1 invariant (labels.base == 0 || fresh(labels)) && len(labels) <= rangeindex + 1
+//@   ensures result != nil && fresh(result) && result.Code == ErrInvalidParamType
+
+//@ func InvalidCompareLType
+//@   modifies nothing
+//@   loop 1 invariant (labels.base == 0 || fresh(labels)) && len(labels) <= rangeindex + 1
+//@   ensures result != nil && fresh(result) && result.Code == ErrInvalidCompareLType
+
+//@ func InvalidCompareRType
+//@   modifies nothing
+//@   loop 1 invariant (labels.base == 0 || fresh(labels)) && len(labels) <= rangeindex + 1
+//@   ensures result != nil && fresh(result) && result.Code == ErrInvalidCompareRType
+
+//@ func InvalidExceptionType
+//@   modifies nothing
+//@   ensures result != nil && fresh(result) && result.Code == ErrInvalidExceptionType
+
+//@ func InvalidExceptionObjectType
+//@   modifies nothing
+//@   ensures result != nil && fresh(result) && result.Code == ErrInvalidExceptionObjectType
+
+//@ func InvalidClassType
+//@   modifies nothing
+//@   ensures result != nil && fresh(result) && result.Code == ErrInvalidClassType
+
+//@ func ArithDivZero
+//@   modifies nothing
+//@   ensures result != nil && fresh(result) && result.Code == ErrArithDivZero
+
+//@ func ArithRootLessThanZero
+//@   modifies nothing
+//@   ensures result != nil && fresh(result) && result.Code == ErrArithRootLessThanZero
+
+//@ func InputValueNotFound
+//@   modifies nothing
+//@   ensures result != nil && fresh(result) && result.Code == ErrInputValueNotFound
+
+//@ func InvalidSyntax
+//@   modifies nothing
+//@   ensures result != nil && fresh(result) && result.Code == ErrInvalidSyntax && result.Cursor == startIdx
+
+//@ func UnexpectedIndent
+//@   modifies nothing
+//@   ensures result != nil && fresh(result) && result.Code == ErrUnexpectedIndent && result.Cursor == startIdx
+
+//@ func ExprMustTypeID
+//@   modifies nothing
+//@   ensures result != nil && fresh(result) && result.Code == ErrMustTypeID && result.Cursor == startIdx
+
+//@ func InvalidIndentType
+//@   modifies nothing
+//@   ensures result != nil && fresh(result) && result.Code == ErrInvalidIndent && result.Cursor == startIdx
+
+//@ func InvalidIndentSpaceCount
+//@   modifies nothing
+//@   ensures result != nil && fresh(result) && result.Code == ErrInvalidIndentSpaceCount && result.Cursor == startIdx
+
+//@ func InvalidChar
+//@   modifies nothing
+//@   ensures result != nil && fresh(result) && result.Code == ErrInvalidChar && result.Cursor == startIdx
+
+//@ func EscapeStringFailed
+//@   modifies nothing
+//@   ensures result != nil && fresh(result) && result.Code == ErrEscapeStringFailed && result.Cursor == startIdx
+
+//@ func IncompleteString
+//@   modifies nothing
+//@   ensures result != nil && fresh(result) && result.Code == ErrIncomleteString && result.Cursor == startIdx
+
+//@ func NewContinueSignal
+//@   modifies nothing
+//@   ensures result != nil && fresh(result) && result.SigType == SigTypeContinue && result.Extra == nil
+
+//@ func NewBreakSignal
+//@   modifies nothing
+//@   ensures result != nil && fresh(result) && result.SigType == SigTypeBreak && result.Extra == nil
+
+//@ func NewExceptionSignal
+//@   modifies nothing
+//@   ensures result != nil && fresh(result) && result.SigType == SigTypeException && result.Extra == val
+
+//@ closure InvalidIndentType$1
+//@   pure
